@@ -209,6 +209,15 @@ FaultResult apply_token_fault(const std::string& text, const std::vector<Token>&
         r.text = before(ti) + chan + after(ti);
         r.applied = true;
         r.guaranteed_error = false;  // (a channel is a legal operand in a few places, e.g. a channel array index is not)
+        // ... but as an argument of spawn for a "const int" parameter it is a type error for sure
+        for (size_t j = ti; j-- > 0;) {
+            if (tok(j) == ")")
+                break;
+            if (tok(j) == "spawn") {
+                r.guaranteed_error = true;
+                break;
+            }
+        }
         break;
     }
     case TF_OVERFLOW_LITERAL: {
